@@ -135,18 +135,134 @@ Proof.
       cbn in IH |- *. rewrite <- HD. exact IH. }
     destruct (op =s "add") eqn:E3.
     { apply seqb_eq in E3. subst op.
-      destruct a as [|a1 [|a2 [|? ?]]]; try (destruct a1; exact I).
+      destruct a as [|a1 [|a2 [|? ?]]]; try (destruct a1; exact I); try (destruct a1, a2; exact I).
       cbn [map] in HD. rewrite (ex_add X A asz HE) in HD.
       rewrite hd_mod_small in HD by (apply Z.mod_pos_bound; exact W_pos).
-      destruct a1 as [k|y|l]; destruct a2 as [k2|y2|l2]; try apply in_alloca_ok;
-        (eapply (offset_by_ok c _ _ _ _ (IHn F c st _ HF)); [reflexivity | rewrite <- HD; cbn [oval]; f_equal; lia]). }
+      destruct a1 as [k|y|l]; destruct a2 as [k2|y2|l2]; cbn beta iota; try apply in_alloca_ok.
+      all: try (eapply (offset_by_ok c _ _ _ _ (IHn F c st _ HF)); [reflexivity | etransitivity; [symmetry; exact HD|]; cbn [oval]; f_equal; lia]).
+}
     destruct (op =s "sub") eqn:E4.
     { apply seqb_eq in E4. subst op.
-      destruct a as [|a1 [|a2 [|? ?]]]; try (destruct a1; exact I).
+      destruct a as [|a1 [|a2 [|? ?]]]; try (destruct a1; exact I); try (destruct a1, a2; exact I).
       cbn [map] in HD. rewrite (ex_sub X A asz HE) in HD.
       rewrite hd_mod_small in HD by (apply Z.mod_pos_bound; exact W_pos).
       destruct a1 as [k|y|l]; try exact I.
-      eapply (offset_by_ok c _ _ _ _ (IHn F c st _ HF)); [reflexivity | rewrite <- HD; cbn [oval]; f_equal; lia]. }
+      eapply (offset_by_ok c _ _ _ _ (IHn F c st _ HF)); [reflexivity | etransitivity; [symmetry; exact HD|]; cbn [oval]; f_equal; lia]. }
     exact I.
 Qed.
+
+(* ------------------------------------------------------------------ symbolic locations *)
+Lemma aget_oval : forall c l i, aget 0 (map (oval c) l) i = oval c (aget (OLab 0) l i).
+Proof. intros. exact (aget_map _ _ (oval c) (OLab 0) l i). Qed.
+
+Lemma sym_size_ok : forall c args z n, sym_size args z = Some n ->
+  (match z with SzC m => m | SzA i => aget 0 (map (oval c) args) i end) = n.
+Proof.
+  intros c args [m|i] n H; cbn in H.
+  - congruence.
+  - rewrite aget_oval.
+    destruct (aget (OLab 0) args i) as [v|x|l]; try discriminate. cbn. congruence.
+Qed.
+
+Lemma sym_loc_sound : forall F c st args r s k, all_hold c st F ->
+  in_cr (conc_range (map (oval c) args) r) s k = true ->
+  sr_sp r = s /\ aden (sym_loc F asz args r) k.
+Proof.
+  intros F c st args r s k HF H. unfold in_cr, conc_range in H. cbn [cr_sp cr_lo cr_len] in H.
+  apply andb_true_iff in H. destruct H as [H H3]. apply andb_true_iff in H. destruct H as [H1 H2].
+  apply sp_eqb_eq in H1. apply Z.leb_le in H2. apply Z.ltb_lt in H3. split; [exact H1|].
+  unfold sym_loc, aden.
+  pose proof (sym_size_ok c args (sr_size r)) as Hsz.
+  set (len := match sr_size r with SzC m => m | SzA i => aget 0 (map (oval c) args) i end) in *.
+  destruct (sr_ptr r) as [i|z].
+  - rewrite aget_oval in H2, H3.
+    pose proof (resolve_sound RFUEL F c st (aget (OLab 0) args i) HF) as R.
+    destruct (resolve RFUEL F asz (aget (OLab 0) args i)) as [b o].
+    exists (k - base b). cbn [mkml ml_alloca]. split; [|lia].
+    unfold den. destruct (sym_size args (sr_size r)) as [n|] eqn:S.
+    + specialize (Hsz n eq_refl). cbn [ml_is_empty ml_size ml_alloca ml_offset mkml].
+      split; [apply Z.eqb_neq; lia|]. split; [reflexivity|].
+      destruct o as [o|]; [|exact I]. cbn in R. destruct R as [R1 _]. lia.
+    + cbn [ml_is_empty ml_size ml_alloca ml_offset mkml]. split; [reflexivity|]. split; [reflexivity|].
+      destruct o as [o|]; [|exact I]. cbn in R. destruct R as [R1 _]. split; [lia|exact I].
+  - exists k. cbn [mkml ml_alloca base]. split; [|lia].
+    unfold den. destruct (sym_size args (sr_size r)) as [n|] eqn:S.
+    + specialize (Hsz n eq_refl). cbn [ml_is_empty ml_size ml_alloca ml_offset mkml].
+      split; [apply Z.eqb_neq; lia|]. split; [reflexivity|]. lia.
+    + cbn [ml_is_empty ml_size ml_alloca ml_offset mkml]. split; [reflexivity|]. split; [reflexivity|]. split; [lia|exact I].
+Qed.
+
+Lemma inb_range : forall l id j, inb asz l = true -> ml_alloca l = Some id -> den l (Some id) j -> 0 <= j < asz id.
+Proof.
+  intros [[o|] [n|] [a|]] id j H Ha D; cbn in H, Ha; try discriminate.
+  inversion Ha; subst a. apply andb_true_iff in H. destruct H as [H H3]. apply andb_true_iff in H. destruct H as [H1 H2].
+  apply Z.leb_le in H1, H2, H3. destruct D as [_ [_ D]]. cbn in D. lia.
+Qed.
+
+Lemma locs_disjoint_sound : forall l1 l2 k, locs_disjoint true asz l1 l2 = true -> aden l1 k -> aden l2 k -> False.
+Proof.
+  intros l1 l2 k H [j1 [D1 K1]] [j2 [D2 K2]]. unfold locs_disjoint in H.
+  destruct (may_overlap l1 l2) as [[|]|] eqn:M; try discriminate.
+  destruct (ml_alloca l1) as [i|] eqn:A1; destruct (ml_alloca l2) as [j|] eqn:A2; try discriminate.
+  - cbn [negb orb] in H. rewrite orb_false_r in H. apply orb_true_iff in H. destruct H as [H|H].
+    + apply Z.eqb_eq in H. subst j. cbn [base] in K1, K2. assert (j1 = j2) by lia. subst j2.
+      exact (may_overlap_sound l1 l2 M (Some i) j1 D1 D2).
+    + apply andb_true_iff in H. destruct H as [I1 I2].
+      pose proof (inb_range l1 i j1 I1 A1 D1) as R1. pose proof (inb_range l2 j j2 I2 A2 D2) as R2.
+      cbn [base] in K1, K2.
+      destruct (Z.eq_dec i j) as [E|E].
+      * subst j. assert (j1 = j2) by lia. subst j2. exact (may_overlap_sound l1 l2 M (Some i) j1 D1 D2).
+      * destruct (ex_disj X A asz HE i j E); lia.
+  - cbn [base] in K1, K2. assert (j1 = k) by lia. assert (j2 = k) by lia. subst j1 j2.
+    exact (may_overlap_sound l1 l2 M None k D1 D2).
+Qed.
+
+(* ------------------------------------------------------------------ operand equivalence *)
+Lemma list_eqb_vals : forall (e : operand -> operand -> bool) c,
+  forall l l', (forall a b, In a l -> e a b = true -> oval c a = oval c b) ->
+  list_eqb e l l' = true -> map (oval c) l = map (oval c) l'.
+Proof.
+  intros e c. induction l as [|x t IH]; intros [|y t'] He H; cbn in H; try discriminate; [reflexivity|].
+  apply andb_true_iff in H. destruct H as [H1 H2]. cbn [map]. f_equal.
+  - apply He; [left; reflexivity | exact H1].
+  - apply IH; [intros a b Ha; apply He; right; exact Ha | exact H2].
+Qed.
+
+Lemma same_fixed_sound : forall c p q r1 r2, res_ok c p r1 -> res_ok c q r2 -> same_fixed r1 r2 = true -> oval c p = oval c q.
+Proof.
+  intros c p q [b1 [o1|]] [b2 [o2|]] R1 R2 H; cbn in H; try discriminate.
+  apply andb_true_iff in H. destruct H as [H1 H2]. apply Z.eqb_eq in H1. subst o2.
+  destruct R1 as [R1 _]. destruct R2 as [R2 _]. rewrite R1, R2.
+  destruct b1 as [i|]; destruct b2 as [j|]; try discriminate; [apply Z.eqb_eq in H2; subst j|]; reflexivity.
+Qed.
+
+Lemma equiv_sound : forall n F c st a b, all_hold c st F -> equiv n F asz a b = true -> oval c a = oval c b.
+Proof.
+  induction n; intros F c st a b HF H; cbn [equiv] in H.
+  - rewrite orb_false_r in H. apply operand_eqb_eq in H. congruence.
+  - apply orb_true_iff in H. destruct H as [H|H]; [apply operand_eqb_eq in H; congruence|].
+    apply orb_true_iff in H. destruct H as [H|H]; [|eapply same_fixed_sound; [| |exact H]; eapply resolve_sound; exact HF].
+    apply orb_true_iff in H. destruct H as [H|H].
+    + apply orb_true_iff in H. destruct H as [H|H].
+      * destruct a as [?|x|?]; try discriminate. destruct (find_def F x) as [[op [|q [|? ?]]]|] eqn:D; try discriminate.
+        apply andb_true_iff in H. destruct H as [H1 H2]. apply seqb_eq in H1. subst op.
+        apply find_def_in in D. destruct (HF _ D) as [_ HD]. unfold out1 in HD. cbn [map] in HD.
+        rewrite (ex_assign X A asz HE) in HD. rewrite hd_mod_small in HD by apply oval_range.
+        rewrite <- HD. eapply IHn; eassumption.
+      * destruct b as [?|y|?]; try discriminate. destruct (find_def F y) as [[op [|q [|? ?]]]|] eqn:D; try discriminate.
+        apply andb_true_iff in H. destruct H as [H1 H2]. apply seqb_eq in H1. subst op.
+        apply find_def_in in D. destruct (HF _ D) as [_ HD]. unfold out1 in HD. cbn [map] in HD.
+        rewrite (ex_assign X A asz HE) in HD. rewrite hd_mod_small in HD by apply oval_range.
+        rewrite <- HD. eapply IHn; eassumption.
+    + destruct a as [?|x|?]; try discriminate. destruct (find_def F x) as [[op aa]|] eqn:Da; try discriminate.
+      destruct b as [?|y|?]; try discriminate. destruct (find_def F y) as [[op' ab]|] eqn:Db; try discriminate.
+      apply andb_true_iff in H. destruct H as [H1 H2]. apply seqb_eq in H1. subst op'.
+      apply find_def_in in Da. apply find_def_in in Db.
+      destruct (HF _ Da) as [_ Ha]. destruct (HF _ Db) as [_ Hb].
+      rewrite <- Ha, <- Hb. f_equal.
+      eapply list_eqb_vals; [|exact H2]. intros a b _ E. eapply IHn; eassumption.
+Qed.
+
+Lemma eqv_sound : forall F c st a b, all_hold c st F -> eqv F asz a b = true -> oval c a = oval c b.
+Proof. intros. eapply equiv_sound; eassumption. Qed.
 End Facts.
